@@ -59,9 +59,8 @@ fixed("C02", "b687757", ["c02:udp:%s:async:%s:datagram-content" % (m, e) for m i
       "AsyncRead never restores the read buffer length after a callback: a datagram larger than an earlier one is truncated")
 fixed("C02", "e30dbb9", ["c02:*:ONESHOT:*:read-stall (seen as undecided stalls in C04/C01 sweeps)"],
       "Start() sets Engine.isOneshot after launching the pollers; a poller scheduled early runs with one-shot handling off and never re-arms a descriptor after its first event")
-for m, a in (("LT", "sync"), ("LT", "async"), ("ONESHOT", "sync"), ("ONESHOT", "async"), ("ET", "async")):
-    known("C02", "c02:halfclose:%s:%s:unread-data-dropped" % (m, a),
-          "peer writes a burst and immediately half-closes/closes: EPOLLRDHUP arrives with the data, the poller closes the connection right after its bounded read loop (or before the async read task ran) and the bytes still unread are dropped (poller_epoll.go: 'if ev.Events&epollEventsError != 0 { closeWithError(io.EOF) }'); ET+sync drains first and is healthy")
+fixed("C02", "bd4926b", ["c02:halfclose:%s:%s:unread-data-dropped" % (m, a) for m, a in (("LT", "sync"), ("LT", "async"), ("ONESHOT", "sync"), ("ONESHOT", "async"), ("ET", "async"))],
+      "peer writes a burst and immediately half-closes/closes: EPOLLRDHUP arrives with the data, the poller closes the connection right after its bounded read loop (or before the async read task ran) and the unread bytes are dropped (first kept as a known finding, then repaired once the whole check suite was available as a regression net)")
 
 # ---- HTTP parser
 fixed("C07", "f310c1b", ["c07:request:trailer-value-truncated-at-space", "c07:response:trailer-value-truncated-at-space"],
